@@ -352,7 +352,8 @@ def step (IO : SymIO σ) (w : World σ) (op : Op) : World σ × String :=
       | none => bad
       | some p =>
         -- a temporary encoder session of the same codec and parameters builds the codeword
-        let (g, H) := if s.codec == 3 then
+        -- (a configured session always carries accepted parameters; the guard makes that explicit)
+        let (g, H) := if s.codec == 3 && withinLimits 3 p then
             (match Rfc5170.create CSem.rne53 w.seed p.k p.r p.N1 p.seed.toNat with
              | (g, some M) => (g, M.rows)
              | (g, none) => (g, []))
